@@ -352,8 +352,17 @@ fn check(tier: &str) -> i32 {
         let spec = r.spec.clone().unwrap();
         // confirm by re-execution, then minimise, then replay the minimised description once more
         let exp = model::expect(&spec);
-        let obs = exec::run(&env, &spec);
-        let again = judge(&spec, &exp, &obs);
+        let mut obs = exec::run(&env, &spec);
+        let mut again = judge(&spec, &exp, &obs);
+        // runs fed through real pipes depend on kernel timing: give them a few attempts
+        let attempts = if spec.stdin_pipe || !spec.fifos.is_empty() || nondeterministic { 6 } else { 1 };
+        for _ in 1..attempts {
+            if again.iter().any(|x| shrink::same_class(x, v)) {
+                break;
+            }
+            obs = exec::run(&env, &spec);
+            again = judge(&spec, &exp, &obs);
+        }
         if !again.iter().any(|x| shrink::same_class(x, v)) {
             unconfirmed += 1;
             eprintln!("[c19] violation {} at {}#{}.{} did not re-execute identically", v.class, r.phase, r.idx, r.sub);
